@@ -199,3 +199,7 @@ MUTANTS += [
 MUTANTS += [
     M("c15-revert-callback-race", "C15", "add_callback tests readiness before queueing again (revert)", (A, "        self._callbacks.append(func)\n        if self._is_ready:\n            self._run_callbacks()", "        if self._is_ready:\n            func(self)\n        else:\n            self._callbacks.append(func)")),
 ]
+
+MUTANTS += [
+    M("c07-revert-inspect-guard", "C07", "INSPECT hashes a peer object under the table lock again (revert)", (P, "        if not brine.dumpable(id_pack):\n            # an id pack is plain data.", "        if False:\n            # an id pack is plain data.")),
+]
